@@ -33,6 +33,7 @@ type El struct {
 	T    string  `json:"t"`
 	V    string  `json:"v"`
 	D    string  `json:"d"`
+	P    string  `json:"p"` // "peer": the element is imported from a peer (PeerName set); facts are then the authorizer's answers in the peer context
 	Lab  string  `json:"lab"`
 	Subs [][]*El `json:"subs"`
 
@@ -351,6 +352,11 @@ func dec(d acl.EnforcementDecision) string {
 // differences are reported as drift (harness / policy text out of step with the abstract facts).
 func realise(rule string, e *El, az acl.Authorizer, where string, drift *[]string) {
 	var ctx acl.AuthorizerContext
+	if e.P == "peer" {
+		ctx.Peer = PeerName
+	} else {
+		e.P = "na"
+	}
 	want := *e
 	n := e.nm
 	if e.N == "ok" || e.N == "no" {
@@ -383,6 +389,9 @@ func realise(rule string, e *El, az acl.Authorizer, where string, drift *[]strin
 		if e.X != "empty" {
 			e.X = dec(az.IntentionRead(n.match, &ctx))
 		}
+	}
+	if e.P == "peer" {
+		return // imported data is readable by service:write-any / read-all, not by name: no intended facts to compare with
 	}
 	if want.N != e.N || want.S != e.S || want.G != e.G || want.X != e.X {
 		*drift = append(*drift, fmt.Sprintf("%s: intended n=%s s=%s g=%s x=%s realised n=%s s=%s g=%s x=%s (%+v)",
@@ -456,6 +465,7 @@ func Prepare(c *Case, az acl.Authorizer) (drift []string) {
 				}
 				for j, lf := range sub {
 					pos++
+					lf.P = e.P
 					assignNames(srule, lf, pos, e.nm.node)
 					realise(srule, lf, az, fmt.Sprintf("%s[%d].%d[%d]", g.Key, i, k, j), &drift)
 					lf.D = "no"
@@ -489,20 +499,30 @@ func tokOf(s string) string {
 	return "secret"
 }
 
+// PeerName is the peer that "imported" elements come from.
+const PeerName = "peer-east"
+
+func peerOf(e *El) string {
+	if e.P == "peer" {
+		return PeerName
+	}
+	return ""
+}
+
 func mkNode(e *El) *structs.Node {
-	return &structs.Node{ID: types.NodeID(e.Lab), Node: e.nm.node, Address: "10.0.0.1", Datacenter: "dc1"}
+	return &structs.Node{ID: types.NodeID(e.Lab), Node: e.nm.node, Address: "10.0.0.1", Datacenter: "dc1", PeerName: peerOf(e)}
 }
 func mkNodeService(e *El) *structs.NodeService {
-	return &structs.NodeService{ID: e.Lab, Service: e.nm.svc, Port: 80}
+	return &structs.NodeService{ID: e.Lab, Service: e.nm.svc, Port: 80, PeerName: peerOf(e)}
 }
 func mkCheck(e *El, node string) *structs.HealthCheck {
-	return &structs.HealthCheck{Node: node, CheckID: types.CheckID(e.Lab), Name: "chk", ServiceName: e.nm.svc, Status: "passing"}
+	return &structs.HealthCheck{Node: node, CheckID: types.CheckID(e.Lab), Name: "chk", ServiceName: e.nm.svc, Status: "passing", PeerName: peerOf(e)}
 }
 func mkCSN(e *El) structs.CheckServiceNode {
 	return structs.CheckServiceNode{
 		Node:    mkNode(e),
 		Service: mkNodeService(e),
-		Checks:  structs.HealthChecks{{Node: e.nm.node, CheckID: "c-" + types.CheckID(e.Lab), ServiceName: e.nm.svc}},
+		Checks:  structs.HealthChecks{{Node: e.nm.node, CheckID: "c-" + types.CheckID(e.Lab), ServiceName: e.nm.svc, PeerName: peerOf(e)}},
 	}
 }
 func mkGatewayService(e *El) *structs.GatewayService {
@@ -679,7 +699,7 @@ func Build(c *Case) (*runner, error) {
 			}}, nil
 	case "IndexedNodeDump":
 		mk := func(e *El) *structs.NodeInfo {
-			ni := &structs.NodeInfo{ID: types.NodeID(e.Lab), Node: e.nm.node, Address: "10.0.0.2"}
+			ni := &structs.NodeInfo{ID: types.NodeID(e.Lab), Node: e.nm.node, Address: "10.0.0.2", PeerName: peerOf(e)}
 			if len(e.Subs) == 2 {
 				for _, lf := range e.Subs[0] {
 					ni.Services = append(ni.Services, mkNodeService(lf))
@@ -766,7 +786,7 @@ func Build(c *Case) (*runner, error) {
 			}}, nil
 	case "IndexedServiceNodes":
 		v := &structs.IndexedServiceNodes{ServiceNodes: ptrList(g0().Items, func(e *El) *structs.ServiceNode {
-			return &structs.ServiceNode{Node: e.nm.node, ServiceID: e.Lab, ServiceName: e.nm.svc, Address: "10.0.0.3"}
+			return &structs.ServiceNode{Node: e.nm.node, ServiceID: e.Lab, ServiceName: e.nm.svc, Address: "10.0.0.3", PeerName: peerOf(e)}
 		})}
 		return &runner{func(f *aclfilter.Filter, _ acl.Authorizer) { f.Filter(v) },
 			func() ([]OutGroup, string) {
@@ -1018,6 +1038,9 @@ func sortedKeys[V any](m map[string]V) []string {
 
 // ---------------------------------------------------------------- execution
 
+// Perturb is set by the -perturb flag only (binding selftest).
+var Perturb string
+
 // Exec prepares the case for the authorizer class, runs the real filter `reps` times on fresh values
 // and returns one event per DISTINCT projected outcome (Go map iteration order is the only source of
 // variation).
@@ -1043,6 +1066,21 @@ func Exec(c *Case, class string, reps int, src string, caseNo int) ([]*Event, er
 		f := aclfilter.New(az, hclog.NewNullLogger())
 		run.run(f, az)
 		out, flag := run.proj()
+		switch Perturb { // selftest shim (DESIGN 2.4 ii): falsify the real call's result once it has been taken
+		case "drop-last":
+			for gi := range out {
+				if n := len(out[gi].Items); n > 0 {
+					out[gi].Items = out[gi].Items[:n-1]
+					break
+				}
+			}
+		case "flip-flag":
+			if flag == "yes" {
+				flag = "no"
+			} else if flag == "no" {
+				flag = "yes"
+			}
+		}
 		kb, _ := json.Marshal([]any{out, flag})
 		if ev, ok := seen[string(kb)]; ok {
 			ev.Reps++
